@@ -1,5 +1,6 @@
 import AasVerif.Lemmas.Lit.Cs
 import AasVerif.Lemmas.Lit.Go
+import AasVerif.Lemmas.Lit.Py
 /-!
 # C19 — Emitted literals denote exactly the original values
 
@@ -99,5 +100,33 @@ example : goDom 0x1F600 ∧ goDom 1 ∧ goDom 255 := by unfold goDom; omega
 example : enc_go [1, 49, 0x1F600] = .ok (Text.ofString "\"\\x011\\U0001f600\"") := by decide
 example : dec_go (Text.ofString "\"\\x011\\U0001f600\"") = some [1, 49, 0xF0, 0x9F, 0x98, 0x80] := by decide
 example : enc_go [97, 0xD800] = .err "ValueError" := by decide
+
+/-! ## Python
+
+`string_literal(text, quoting)` with the enclosing quotes and without curly-bracket duplication,
+for each of the three `quoting` arguments (`None` = fewer escapes). The reader is the one of
+short (single-line) `str` literals; the source restrictions (UTF-8, no NUL) are part of it. -/
+
+/-- Every Python string: the literal is emitted and evaluates to exactly the string. -/
+theorem py_roundtrip (quoting : PyQuoting) (s : Text) (hs : ∀ c ∈ s, c < 0x110000) :
+    ∃ lit, enc_py quoting false false s = .ok lit ∧ dec_py false lit = some s := by
+  unfold enc_py
+  simp only [Bool.false_eq_true, if_false]
+  cases hsingle : pyUsesSingle quoting s with
+  | true =>
+    refine ⟨[39] ++ s.flatMap (pyEscChar Gen.Lit.pySingle) ++ [39], ?_, ?_⟩
+    · simp only [if_true, pyTable, stripped]
+      rw [isStripped_quoted 39 _ (by decide)]; rfl
+    · exact py_dec 39 _ (Or.inl ⟨rfl, rfl⟩) s hs
+  | false =>
+    refine ⟨[34] ++ s.flatMap (pyEscChar Gen.Lit.pyDouble) ++ [34], ?_, ?_⟩
+    · simp only [Bool.false_eq_true, if_false, pyTable, stripped]
+      rw [isStripped_quoted 34 _ (by decide)]; rfl
+    · exact py_dec 34 _ (Or.inr ⟨rfl, rfl⟩) s hs
+
+example : enc_py .none false false [0, 39, 0xDC00, 10] = .ok (Text.ofString "\"\\x00'\\udc00\\n\"") := by decide
+example : dec_py false (Text.ofString "\"\\x00'\\udc00\\n\"") = some [0, 39, 0xDC00, 10] := by decide
+/-- the reader rejects what the unfixed generator emitted: a raw NUL, a raw lone surrogate -/
+example : dec_py false [39, 0, 39] = none ∧ dec_py false [39, 0xD800, 39] = none := by decide
 
 end AasVerif.Props.C19
